@@ -42,6 +42,20 @@ package ice
 //@   ensures C09 fresh-open-socket-or-none: (err == nil ==> result0 != nil && result0.gClosed == 0 && !result0.gHeld) && (err != nil ==> result0 == nil)
 //@   ensures inverted-range-is-refused: old(lAddr.Port) == 0 && !(portMin == 0 && portMax == 0) && ite(portMin == 0, 1024, portMin) > ite(portMax == 0, 65535, portMax) ==> result0 == nil && err != nil
 
+// The gathering configuration is fixed once the agent is constructed: it is written only
+// by createAgentBase / initWithDefaults and by options, which refuse to run on a constructed agent.
+//@ immutable C18 ice.Agent.networkTypes in createAgentBase, WithNetworkTypes
+//@ immutable C18 ice.Agent.candidateTypes in (*AgentConfig).initWithDefaults, WithCandidateTypes
+//@ immutable C18 ice.Agent.portMin in createAgentBase, WithPortRange
+//@ immutable C18 ice.Agent.portMax in createAgentBase, WithPortRange
+//@ immutable C18 ice.Agent.udpMux in createAgentBase, WithUDPMux
+//@ immutable C18 ice.Agent.tcpMux in createAgentBase, WithTCPMux
+//@ immutable C18 ice.Agent.mDNSMode in createAgentBase, newAgentWithConfig, WithMulticastDNSMode
+//@ immutable C18 ice.Agent.mDNSName in createAgentBase, WithMulticastDNSHostName
+//@ immutable C18 ice.Agent.interfaceFilter in createAgentBase, WithInterfaceFilter
+//@ immutable C18 ice.Agent.ipFilter in createAgentBase, WithIPFilter
+//@ immutable C18 ice.Agent.includeLoopback in createAgentBase, WithIncludeLoopback
+
 // The effective network-type set: an empty configured list means all four types.
 //@ spec macro effectiveNetworkTypes(cfg []NetworkType, eff []NetworkType) = (len(cfg) != 0 ==> eff == cfg) && (len(cfg) == 0 ==> len(eff) == 4 && eff[0] == NetworkTypeUDP4 && eff[1] == NetworkTypeUDP6 && eff[2] == NetworkTypeTCP4 && eff[3] == NetworkTypeTCP6)
 
@@ -92,3 +106,79 @@ package ice
 //@   ensures C06 no-pairs-or-transactions-of-the-old-generation: len(a.checklist) == 0 && len(a.pairsByID) == 0 && len(a.pendingBindingRequests) == 0
 //@   ensures C06 no-selection-of-the-old-generation: a.getSelectedPair() == nil
 //@   ensures C02 fresh-local-credentials-and-no-remote-ones: a.localUfrag == ufrag && a.localPwd == pwd && a.remoteUfrag == "" && a.remotePwd == ""
+
+// The host gatherer: which transports it may open sockets for, which filters and
+// port window it applies, and the name it publishes in mDNS gather mode.
+//@ func (*Agent).gatherCandidatesLocal
+//@   props C18
+//@   opt nosafety
+//@   loop 1 invariant only-tcp-and-udp-keys: forall k string :: has(networks, k) ==> k == "tcp" || k == "udp"
+//@   loop 1 invariant udp-only-if-a-udp-type-is-enabled: has(networks, "udp") ==> exists j int :: 0 <= j && j <= rangeindex && old(networkTypes[j]) != NetworkTypeTCP4 && old(networkTypes[j]) != NetworkTypeTCP6
+//@   loop 1 invariant tcp-only-if-a-tcp-type-is-enabled: has(networks, "tcp") ==> exists j int :: 0 <= j && j <= rangeindex && (old(networkTypes[j]) == NetworkTypeTCP4 || old(networkTypes[j]) == NetworkTypeTCP6)
+//@   loop 1 invariant index-in-range: rangeindex + 1 <= len(networkTypes)
+//@   loop 2 invariant mux-setting-fixed: a.udpMux == old(a.udpMux)
+//@   loop 2 invariant mux-keeps-udp-out: old(a.udpMux) != nil ==> !has(networks, "udp")
+//@   loop 3 invariant mux-setting-fixed: a.udpMux == old(a.udpMux)
+//@   loop 3 invariant mux-keeps-udp-out: old(a.udpMux) != nil ==> !has(networks, "udp")
+//@   loop 4 invariant mux-setting-fixed: a.udpMux == old(a.udpMux)
+//@   loop 4 invariant mux-keeps-udp-out: old(a.udpMux) != nil ==> !has(networks, "udp")
+//@   loop 2 invariant transports-follow-the-network-types: (has(networks, "udp") ==> exists j int :: 0 <= j && j < len(networkTypes) && old(networkTypes[j]) != NetworkTypeTCP4 && old(networkTypes[j]) != NetworkTypeTCP6) && (has(networks, "tcp") ==> exists j int :: 0 <= j && j < len(networkTypes) && (old(networkTypes[j]) == NetworkTypeTCP4 || old(networkTypes[j]) == NetworkTypeTCP6)) && (forall k string :: has(networks, k) ==> k == "tcp" || k == "udp")
+//@   loop 3 invariant transports-follow-the-network-types: (has(networks, "udp") ==> exists j int :: 0 <= j && j < len(networkTypes) && old(networkTypes[j]) != NetworkTypeTCP4 && old(networkTypes[j]) != NetworkTypeTCP6) && (has(networks, "tcp") ==> exists j int :: 0 <= j && j < len(networkTypes) && (old(networkTypes[j]) == NetworkTypeTCP4 || old(networkTypes[j]) == NetworkTypeTCP6)) && (forall k string :: has(networks, k) ==> k == "tcp" || k == "udp")
+//@   loop 4 invariant transports-follow-the-network-types: (has(networks, "udp") ==> exists j int :: 0 <= j && j < len(networkTypes) && old(networkTypes[j]) != NetworkTypeTCP4 && old(networkTypes[j]) != NetworkTypeTCP6) && (has(networks, "tcp") ==> exists j int :: 0 <= j && j < len(networkTypes) && (old(networkTypes[j]) == NetworkTypeTCP4 || old(networkTypes[j]) == NetworkTypeTCP6)) && (forall k string :: has(networks, k) ==> k == "tcp" || k == "udp")
+//@   loop 6 invariant transports-follow-the-network-types: (has(networks, "udp") ==> exists j int :: 0 <= j && j < len(networkTypes) && old(networkTypes[j]) != NetworkTypeTCP4 && old(networkTypes[j]) != NetworkTypeTCP6) && (has(networks, "tcp") ==> exists j int :: 0 <= j && j < len(networkTypes) && (old(networkTypes[j]) == NetworkTypeTCP4 || old(networkTypes[j]) == NetworkTypeTCP6)) && (forall k string :: has(networks, k) ==> k == "tcp" || k == "udp")
+//@   site call localInterfaces#1 assert scan-uses-the-configured-filters: arg0 == a.net && arg1 == a.interfaceFilter && arg2 == a.ipFilter && arg3 == networkTypes && arg4 == a.includeLoopback
+//@   site call listenUDPInPortRange#1 assert own-sockets-use-the-configured-port-window: arg2 == a.portMax && arg3 == a.portMin && arg4 == "udp" && arg5.Port == 0
+//@   site call listenUDPInPortRange#1 assert no-own-udp-socket-with-a-mux: a.udpMux == nil
+//@   site call listenUDPInPortRange#1 assert udp-socket-only-if-a-udp-type-is-enabled: exists j int :: 0 <= j && j < len(networkTypes) && old(networkTypes[j]) != NetworkTypeTCP4 && old(networkTypes[j]) != NetworkTypeTCP6
+//@   loop 6 invariant network-is-an-enabled-transport: has(networks, network)
+//@   site call NewCandidateHost#1 assert transport-is-enabled: has(networks, arg0.Network) && arg0.Network == network
+//@   site call NewCandidateHost#1 assert tcp-host-candidates-are-passive-and-need-a-tcp-type: arg0.Network == "tcp" ==> arg0.TCPType == TCPTypePassive && a.tcpMux != nil && exists j int :: 0 <= j && j < len(networkTypes) && (old(networkTypes[j]) == NetworkTypeTCP4 || old(networkTypes[j]) == NetworkTypeTCP6)
+//@   site call NewCandidateHost#1 assert mdns-gather-mode-publishes-the-name-not-the-ip: a.mDNSMode == MulticastDNSModeQueryAndGather ==> arg0.Address == a.mDNSName
+//@   site call NewCandidateHost#1 assert port-is-the-sockets-port: arg0.Port == connAndPort.port && arg0.Component == ComponentRTP
+
+// Interface / address filter: every address in the result passed the loopback
+// setting, the requested IP families (an empty network-type list requesting both),
+// the IPv6 special-purpose filter and the caller's IP filter, on an interface that
+// is up and passed the loopback setting and the caller's interface filter.
+// ASSUMED: the caller's filter callbacks do not modify agent state.
+//@ noeffect ice.localInterfaces.interfaceFilter, ice.localInterfaces.ipFilter
+//@ func localInterfaces
+//@   props C18
+//@   opt nosafety
+//@   modifies nothing
+//@   loop 2 invariant results-are-built-in-fresh-memory: fresh(ipAddrs) && fresh(filteredIfaces)
+//@   loop 3 invariant results-are-built-in-fresh-memory: fresh(ipAddrs) && fresh(filteredIfaces)
+//@   loop 2 invariant nothing-else-written: unchangedExcept()
+//@   loop 3 invariant nothing-else-written: unchangedExcept()
+//@   ghostvar ifaceChecked int = 0
+//@   ghostvar ifaceOK bool = false
+//@   ghostvar loopChecked bool = false
+//@   ghostvar isLoop bool = false
+//@   ghostvar famChecked bool = false
+//@   ghostvar is6 bool = false
+//@   ghostvar v6Checked bool = false
+//@   ghostvar v6OK bool = false
+//@   ghostvar filtChecked bool = false
+//@   ghostvar filtOK bool = false
+//@   site call interfaceFilter#1 ghost ifaceChecked := arg0
+//@   site call interfaceFilter#1 ghost ifaceOK := result
+//@   site call Addrs#1 assert only-interfaces-that-are-up: iface.Flags % 2 == 1
+//@   site call Addrs#1 assert loopback-interfaces-only-if-enabled: (iface.Flags / 4) % 2 == 1 ==> includeLoopback
+//@   site call Addrs#1 assert interface-filter-consulted-and-accepted: interfaceFilter != nil ==> ifaceChecked == iface.Name && ifaceOK
+//@   site call parseAddrFromIface#1 ghost loopChecked := false
+//@   site call parseAddrFromIface#1 ghost famChecked := false
+//@   site call parseAddrFromIface#1 ghost v6Checked := false
+//@   site call parseAddrFromIface#1 ghost filtChecked := false
+//@   site call IsLoopback#1 ghost loopChecked := true
+//@   site call IsLoopback#1 ghost isLoop := result
+//@   site call Is6#1 ghost famChecked := true
+//@   site call Is6#1 ghost is6 := result
+//@   site call isSupportedIPv6Partial#1 ghost v6Checked := true
+//@   site call isSupportedIPv6Partial#1 ghost v6OK := result
+//@   site call ipFilter#1 ghost filtChecked := true
+//@   site call ipFilter#1 ghost filtOK := result
+//@   site call append#1 assert loopback-addresses-only-if-enabled: loopChecked && (isLoop ==> includeLoopback)
+//@   site call append#1 assert only-requested-families: famChecked && (is6 ==> ipv6Requested) && (!is6 ==> ipV4Requested)
+//@   site call append#1 assert no-special-purpose-ipv6: is6 ==> v6Checked && v6OK
+//@   site call append#1 assert ip-filter-consulted-and-accepted: ipFilter != nil ==> filtChecked && filtOK
+//@   site call append#1 assert only-parsed-addresses: err == nil && len(arg1) == 1 && arg1[0].addr == ipAddr && arg1[0].iface == iface.Name
